@@ -120,6 +120,29 @@ theorem header_slice_times_eq (fpv nVols n : Nat) (files : List (Option Int))
     simp only [hc', Bool.false_eq_true, if_false, hc2]
     rfl
 
+/-- **the repetition time and `dim_info` that `to_nifti` writes, as in dcmstack.py, are the model's `trOf` / `dimInfoOf`** (for a
+    permutation of the three spatial axes; the slice axis is `permutation[2]`) -/
+theorem header_dim_info_eq (trs : List (Option Int)) (pes : List (Option Nat)) (a b c : Nat) :
+    Py.header_dim_info trs pes [a, b, c] c =
+      .ok (trOf trs, (dimInfoOf pes [a, b, c]).1, (dimInfoOf pes [a, b, c]).2.1, (dimInfoOf pes [a, b, c]).2.2) := by
+  unfold Py.header_dim_info
+  have htr : (if ((trs.length == 1) && !(trs.contains none)) = true then (trs[0]!) else none) = trOf trs := by
+    match trs with
+    | [] => rfl
+    | [none] => rfl
+    | [some x] => rfl
+    | _ :: _ :: _ => simp [trOf]
+  match trs, pes with
+  | [some x], [some d] => by_cases hd : d = 0 <;> simp [trOf, dimInfoOf, pyGet, hd, bind, Except.bind, pure, Except.pure]
+  | [some x], [] | [some x], [none] => simp [trOf, dimInfoOf, pyGet, bind, Except.bind, pure, Except.pure]
+  | [some x], _ :: _ :: _ => simp [trOf, dimInfoOf, pyGet, bind, Except.bind, pure, Except.pure]
+  | [], [some d] | [none], [some d] => by_cases hd : d = 0 <;> simp [trOf, dimInfoOf, pyGet, hd, bind, Except.bind, pure, Except.pure]
+  | _ :: _ :: _, [some d] => by_cases hd : d = 0 <;> simp [trOf, dimInfoOf, pyGet, hd, bind, Except.bind, pure, Except.pure]
+  | [], [] | [], [none] | [none], [] | [none], [none] => simp [trOf, dimInfoOf, pyGet, bind, Except.bind, pure, Except.pure]
+  | [], _ :: _ :: _ | [none], _ :: _ :: _ => simp [trOf, dimInfoOf, pyGet, bind, Except.bind, pure, Except.pure]
+  | _ :: _ :: _, [] | _ :: _ :: _, [none] => simp [trOf, dimInfoOf, pyGet, bind, Except.bind, pure, Except.pure]
+  | _ :: _ :: _, _ :: _ :: _ => simp [trOf, dimInfoOf, pyGet, bind, Except.bind, pure, Except.pure]
+
 /-! the translated block computes (tests, not theorems): consistent interleaved timing, a deviating middle volume, a file
     without a time -/
 example : Py.header_slice_times 2 3 2 [some 10, some 30, some 110, some 130, some 210, some 230] = .ok (some [0, 20]) := by rfl
